@@ -13,4 +13,5 @@ def set(key, value):
         from . import cssproductions, tokenize2
 
         tokenize2._TOKENIZER_CACHE.clear()
-        cssproductions.PRODUCTIONS.insert(1, cssproductions._DXImageTransform)
+        if cssproductions._DXImageTransform not in cssproductions.PRODUCTIONS:
+            cssproductions.PRODUCTIONS.insert(1, cssproductions._DXImageTransform)
